@@ -26,6 +26,8 @@ import (
 )
 
 func TestMain(m *testing.M) {
+	os.Unsetenv("V")
+	os.Unsetenv("W")
 	logrus.SetOutput(io.Discard)
 	drv.Main(m)
 }
@@ -67,7 +69,8 @@ func exitShape(shape, n int) string {
 func (c Cmd) text(trace string, withVar bool) string {
 	id := c.ID
 	if withVar {
-		id = c.ID + "@$V"
+		// V is set by every variation, W only by the even ones: a later variation must not inherit it
+		id = c.ID + "@$V/${W:-none}"
 	}
 	sl := ""
 	if c.Sleep {
@@ -109,7 +112,11 @@ func model(c Case) expect {
 	if c.NVar > 0 {
 		vars = nil
 		for i := 0; i < c.NVar; i++ {
-			vars = append(vars, fmt.Sprintf("v%d", i))
+			w := "none"
+			if i%2 == 0 {
+				w = fmt.Sprintf("w%d", i)
+			}
+			vars = append(vars, fmt.Sprintf("v%d/%s", i, w))
 		}
 	}
 	for _, v := range vars {
@@ -155,7 +162,11 @@ func mkTask(c Case, trace string) *task.Task {
 		tk.After = append(tk.After, a.text(trace, false))
 	}
 	for i := 0; i < c.NVar; i++ {
-		tk.Variations = append(tk.Variations, map[string]string{"V": fmt.Sprintf("v%d", i)})
+		v := map[string]string{"V": fmt.Sprintf("v%d", i)}
+		if i%2 == 0 {
+			v["W"] = fmt.Sprintf("w%d", i)
+		}
+		tk.Variations = append(tk.Variations, v)
 	}
 	tk.AllowFailure = c.Allow
 	switch c.Cond {
@@ -298,7 +309,11 @@ func runCLI(c Case, dir string) (vs []Violation) {
 	if c.NVar > 0 {
 		var l gen.List
 		for i := 0; i < c.NVar; i++ {
-			l = append(l, gen.Map{{K: "V", V: fmt.Sprintf("v%d", i)}})
+			v := gen.Map{{K: "V", V: fmt.Sprintf("v%d", i)}}
+			if i%2 == 0 {
+				v = v.Set("W", fmt.Sprintf("w%d", i))
+			}
+			l = append(l, v)
 		}
 		tk = tk.Set("variations", l)
 	}
